@@ -30,7 +30,7 @@ def meta(tier, seed):
                   "sharing the query's sign pattern in at least one table (harness's copy of the history, accumulated "
                   "indices); expectations = library's learning policy fit on exactly that set, NaN for all arms if empty; "
                   "positive multiples of a query give identical expectations and a stored row is in its own neighbourhood",
-        "bounds": {"settings": SETTINGS, "seeds": 3 if tier == "thorough" else 1,
+        "bounds": {"settings": SETTINGS, "many_planes": "LSHNearest(20 planes, 1 table) on pairs of 48 unit directions (+3 neighbours each)", "seeds": 3 if tier == "thorough" else 1,
                    "stored": {"quick": "d=1 n<=4; d=2 n<=3 (n=3: 3 assignments); d=3 n<=2",
                               "thorough": "d=1 n<=5; d=2 n<=3 with all arm assignments; d=3 n<=2; three seeds"}[tier],
                    "grid": "{-1,0,1}^d incl. the zero vector", "n_jobs": [1, 2], "policies": LPS,
@@ -56,6 +56,10 @@ def shards(tier, seed):
                             out.append({"nd": nd, "nt": nt, "bseed": sd, "d": d, "n": n, "ln": ln, "tier": tier,
                                         "first": first})
     out.sort(key=lambda s: -((3 ** s["d"]) ** (s["n"] - (s["first"] is not None))))
+    # many hyperplanes (hash values up to 2^20): neighbouring directions differ in a single, possibly low-order, bit
+    for sd in seeds:
+        for first in range(0, FINE_ANGLES, 4):
+            out.append({"kind": "fine", "nd": 20, "nt": 1, "bseed": sd, "first": first, "tier": tier})
     return out
 
 
@@ -178,7 +182,43 @@ def judge(cfg, ln, hist_rows, comp, qs, kinds, acc=None, prefit=False):
     return msgs, history
 
 
+FINE_ANGLES = 48
+
+
+def fine_grid():
+    import math
+    return [[math.cos(2 * math.pi * i / FINE_ANGLES), math.sin(2 * math.pi * i / FINE_ANGLES)] for i in range(FINE_ANGLES)]
+
+
+def run_fine(shard):
+    """Pairs of stored directions from a fine angular grid under LSHNearest(20 planes, 1 table)."""
+    acc = report.Acc(ID, replay, shard)
+    grid = fine_grid()
+    ln = "eg0"
+    for i in range(shard["first"], min(shard["first"] + 4, FINE_ANGLES)):
+        for j in range(FINE_ANGLES):
+            pts = [grid[i], grid[j]]
+            for k in (1, 2, 3):                  # plus the next few directions after j: a small cluster of near rows
+                pts.append(grid[(j + k) % FINE_ANGLES])
+            hist_rows = [(1 + t % 2, list(p), float(2 ** t)) for t, p in enumerate(pts)]
+            qs = [list(p) for p in pts] + [[2.5 * v for v in pts[0]], [0.5 * v for v in pts[1]]]
+            kinds = ["grid"] * len(qs)
+            for comp in ([(0, 5)], [(0, 2), (2, 5)]):
+                cfg = {"arms": [1, 2], "lp": A.LPS[ln], "np": ["LSHNearest", {"n_dimensions": shard["nd"], "n_tables": shard["nt"]}],
+                       "seed": shard["bseed"], "n_jobs": 1, "backend": None}
+                msgs, history = judge(cfg, ln, hist_rows, comp, qs, kinds, acc)
+                acc.traces += 1
+                acc.state(("fine", shard["bseed"], i, j, len(comp)))
+                if msgs:
+                    acc.violation("fine nd=%d comp=%d" % (shard["nd"], len(comp)),
+                                  {"cfg": cfg, "ln": ln, "rows": hist_rows, "comp": comp, "queries": qs, "kinds": kinds}, msgs[0])
+    acc.sample({"kind": "fine", "n_dimensions": shard["nd"], "stored": "pairs of %d unit directions plus 3 neighbours" % FINE_ANGLES})
+    return acc.result()
+
+
 def run_shard(shard):
+    if shard.get("kind") == "fine":
+        return run_fine(shard)
     nd, nt, d, n, ln, tier = shard["nd"], shard["nt"], shard["d"], shard["n"], shard["ln"], shard["tier"]
     grid = A.grid([-1, 0, 1], d)
     acc = report.Acc(ID, replay, shard)
